@@ -2,9 +2,13 @@
 From BV Require Import Base.Prelude Base.Decimal Model.Range Spec.C19_Spec Proofs.C19_Proofs.
 Local Open Scope N_scope.
 
-Theorem c19_split : C19_split.
-Proof. exact c19_split_pf. Qed.
-Print Assumptions c19_split.
+Theorem c19_split_partial : C19_split_partial.
+Proof. exact c19_split_partial_pf. Qed.
+Print Assumptions c19_split_partial.
+
+Theorem c19_split_exact : C19_split_exact.
+Proof. exact c19_split_exact_pf. Qed.
+Print Assumptions c19_split_exact.
 
 (* the union clause of the FULL statement fails when both bounds are exclusive: (10,20) by 5 gives
    (10,15),(15,20) and 15 is in no chunk (replayed on the real code: known finding
@@ -54,7 +58,7 @@ Theorem c19_parse_unfixed_refuted : C19_parse_unfixed_refuted.
 Proof. exact c19_parse_unfixed_refuted_pf. Qed.
 Print Assumptions c19_parse_unfixed_refuted.
 
-(* non-vacuity: a range at the numeric limit, split by 2^63, meets every hypothesis of c19_split
+(* non-vacuity: a range at the numeric limit, split by 2^63, meets every hypothesis of c19_split_partial
    and yields two chunks with the inner boundary on 2^63 (the input on which the unchanged code
    never terminated) *)
 Example c19_split_nonvacuous :
